@@ -6,11 +6,18 @@ Definition Rltb (x y : R) : bool := if Rlt_dec x y then true else false.
 Definition Rleb (x y : R) : bool := if Rle_dec x y then true else false.
 Definition Reqb (x y : R) : bool := if Req_EM_T x y then true else false.
 
+(* truncated remainder modulo 1: the fractional part with the sign of x *)
+Definition Rrem1 (x : R) : R :=
+  if Rle_dec 0 x then frac_part x else Ropp (frac_part (Ropp x)).
+
 Definition NumR : Num := {|
   carrier := R;
   nadd := Rplus; nsub := Rminus; nmul := Rmult; ndiv := Rdiv; nopp := Ropp;
   nltb := Rltb; nleb := Rleb; neqb := Reqb;
   nofZ := IZR;
+  nrem1 := Rrem1;
+  nsqrt := sqrt;
+  nceilZ := fun x => (- Int_part (- x))%Z;
 |}.
 
 Lemma Rltb_true x y : Rltb x y = true <-> (x < y)%R.
